@@ -6,3 +6,4 @@ import LyModel.Props.C12
 #print axioms LyModel.Props.C12.xml_document_faithful
 #print axioms LyModel.Props.C12.json_typing_rfc7951
 #print axioms LyModel.Props.C12.json_tree_refines_spec
+#print axioms LyModel.Props.C12.json_document_faithful
